@@ -39,7 +39,6 @@ import (
 	"sort"
 	"strings"
 	"testing"
-	"time"
 
 	"git.metabarcoding.org/obitools/obitools4/obitools4/pkg/obiapat"
 	"git.metabarcoding.org/obitools/obitools4/obitools4/pkg/obiseq"
@@ -53,6 +52,9 @@ import (
 )
 
 const tplKey = "c11_tpl"
+
+// maxSecond: how many records of the first PCR are given to the second one.
+const maxSecond = 24
 
 var pcrTags = []string{"forward_primer", "forward_match", "forward_error", "reverse_primer", "reverse_match", "reverse_error", "direction"}
 
@@ -280,7 +282,11 @@ func checkAnnotated(c annCase) error {
 	if c.Par2 == nil {
 		return nil
 	}
-	// second PCR on the records the first one returned
+	// second PCR on the records the first one returned (the first maxSecond of them:
+	// low-complexity primers on low-complexity templates give thousands)
+	if len(firstProducts) > maxSecond {
+		firstProducts = firstProducts[:maxSecond]
+	}
 	for j, a := range firstProducts {
 		what := fmt.Sprintf("second PCR: PCRSim(%v) on amplicon %d (%s %q) of the first PCR (%v)", pcrCase{Par: *c.Par2}, j, a.Id(), a.String(), pcrCase{Par: c.Par})
 		if _, err := simAnnotated(what, *c.Par2, a); err != nil {
@@ -306,7 +312,9 @@ func init() {
 // booleans under names no reader or writer gives a meaning to.
 func genAnnotations(t *rapid.T, par params, cli bool) map[string]any {
 	an := map[string]any{}
-	word := func(label string) string { return gen.Seq(t, label, rapid.IntRange(1, 8).Draw(t, label+"_n"), "abcdefgh_XYZ019") }
+	word := func(label string) string {
+		return gen.Seq(t, label, rapid.IntRange(1, 8).Draw(t, label+"_n"), "abcdefgh_XYZ019")
+	}
 	if rapid.IntRange(0, 9).Draw(t, "ann_generic") < 7 {
 		for k := rapid.IntRange(1, 4).Draw(t, "n_generic"); k > 0; k-- {
 			names := []string{"sample", "experiment", "weight", "k_" + word("key")}
@@ -356,6 +364,29 @@ func genAnnotations(t *rapid.T, par params, cli bool) map[string]any {
 	return an
 }
 
+// genNestedPrimerPair: as genPrimerPair, without the one-letter alphabet (a
+// poly-a primer pair on the poly-a stretches genTemplate writes gives tens of
+// thousands of products per template, and the second PCR is run on each product).
+func genNestedPrimerPair(t *rapid.T, label string) (fwd, rev string) {
+	nf := gen.Len(t, label+"_fwd_len", minPrimer, maxPrimer)
+	nr := gen.Len(t, label+"_rev_len", minPrimer, maxPrimer)
+	alpha := rapid.SampledFrom([]string{gen.ACGT, gen.ACGT, gen.ACGT, gen.ACGT, "acg", "ac", "at"}).Draw(t, label+"_alpha")
+	amb := rapid.SampledFrom([]int{0, 0, 0, 10, 30}).Draw(t, label+"_amb_rate")
+	fwd = genPrimer(t, label+"_fwd", nf, alpha, amb)
+	switch rapid.IntRange(0, 11).Draw(t, label+"_rev_kind") {
+	case 0:
+		rev = fwd
+	case 1:
+		rev = ref.RevComp(fwd)
+	default:
+		rev = genPrimer(t, label+"_rev", nr, alpha, amb)
+	}
+	if rapid.IntRange(0, 3).Draw(t, label+"_case") != 0 {
+		fwd, rev = strings.ToUpper(fwd), strings.ToUpper(rev)
+	}
+	return
+}
+
 // genNested: an outer and an inner primer pair; every template is
 // lead + outer start site + gap + [inner region: 0..5 sites of the inner pair,
 // as genTemplate plants them] + gap + outer end site + tail, as given or
@@ -363,6 +394,7 @@ func genAnnotations(t *rapid.T, par params, cli bool) map[string]any {
 // of the outer barcodes.
 func genNested(t *rapid.T, cli bool) (par1, par2 params, templates []string) {
 	par2 = genParams(t, false)
+	par2.Fwd, par2.Rev = genNestedPrimerPair(t, "inner")
 	if cli {
 		par2.RevErr = par2.FwdErr
 		if par2.Max == 0 {
@@ -372,7 +404,7 @@ func genNested(t *rapid.T, cli bool) (par1, par2 params, templates []string) {
 	f2, _ := parsePrimer(par2.Fwd)
 	r2, _ := parsePrimer(par2.Rev)
 	g2 := genCtx{par2, f2, r2}
-	par1.Fwd, par1.Rev = genPrimerPair(t)
+	par1.Fwd, par1.Rev = genNestedPrimerPair(t, "outer")
 	if rapid.IntRange(0, 5).Draw(t, "semi_nested") == 0 {
 		par1.Fwd = par2.Fwd // semi-nested: the forward primer is kept
 	}
@@ -513,14 +545,9 @@ func TestPropAnnotated(t *testing.T) {
 			second = fmt.Sprint(*c.Par2)
 		}
 		evid.Eval("annotated", evid.Hash(fmt.Sprint(c.Par), fmt.Sprint(c.Templates), fmt.Sprint(c.Annots), second), nt, c, cl...)
-		t0 := time.Now() // TIMING
 		if err := checkAnnotated(c); err != nil {
 			evid.Fail(rt, "annotated", c, err)
 		}
-		if d := time.Since(t0); d > time.Second { // TIMING
-			b, _ := json.Marshal(c) // TIMING
-			fmt.Fprintf(os.Stderr, "SLOW %v %s\n", d, b) // TIMING
-		} // TIMING
 	})
 }
 
@@ -678,7 +705,13 @@ func checkCLINested(c cliNestCase) error {
 		}
 		what := fmt.Sprintf("step %d of %d: %s, its input being\n%s\n", step+1, len(c.Steps), desc, tail(input, 6000))
 		if err := judge(what, got, all); err != nil {
-			return err
+			note := ""
+			for _, an := range c.Annots {
+				if step > 0 || staleNote(an) != "" {
+					note = "\n(the records read by this step carry forward_primer/forward_match/forward_error/reverse_primer/reverse_match/reverse_error/direction annotations of another PCR, see the input above; the tags reported must describe this step)"
+				}
+			}
+			return fmt.Errorf("%v%s", err, note)
 		}
 		for _, r := range recs {
 			f, ok := r.An[tplKey].(float64)
@@ -696,8 +729,16 @@ func checkCLINested(c cliNestCase) error {
 			}
 			return nil // nothing to feed into a second step
 		}
-		// the next step reads what this one wrote
+		// the next step reads what this one wrote (its first maxSecond records, byte for byte)
 		input = res.Stdout
+		if len(recs) > maxSecond {
+			recs = recs[:maxSecond]
+			at := 0
+			for k := 0; k < maxSecond; k++ {
+				at += 1 + strings.Index(string(input[at+1:]), "\n>")
+			}
+			input = input[:at+1]
+		}
 		tplSeqs = tplSeqs[:0:0]
 		for _, r := range recs {
 			tplSeqs = append(tplSeqs, r.Seq)
